@@ -435,13 +435,13 @@ def sx(x):
 def run_binary(path, seqs):
     env = dict(os.environ, ASAN_OPTIONS='detect_leaks=1:abort_on_error=0', UBSAN_OPTIONS='print_stacktrace=1')
     p = subprocess.run([path], input=''.join(flat(s) + '\n' for s in seqs), stdout=subprocess.PIPE,
-                       stderr=subprocess.PIPE, text=True, env=env, timeout=3600)
+                       stderr=subprocess.PIPE, text=True, errors='replace', env=env, timeout=3600)
     return p.returncode, p.stdout.split('\n')[:-1], p.stderr
 
 
 def run_model(seqs):
     p = subprocess.run([DRIVER], input=''.join('cops\t' + sx(s) + '\n' for s in seqs), stdout=subprocess.PIPE,
-                       stderr=subprocess.PIPE, text=True, timeout=3600)
+                       stderr=subprocess.PIPE, text=True, errors='replace', timeout=3600)
     return p.stdout.split('\n')[:-1]
 
 
@@ -542,7 +542,7 @@ def static_lendet_compare(seed, n, verbose=True):
         ns.add(rnd_uint(rng, rng.choice([8, 16, 21, 24, 25, 32, 33])))
     ns = sorted(ns)
     p = subprocess.run([DRIVER], input=''.join('cops\t(slen %d)\n' % x for x in ns), stdout=subprocess.PIPE,
-                       stderr=subprocess.PIPE, text=True, timeout=3600)
+                       stderr=subprocess.PIPE, text=True, errors='replace', timeout=3600)
     out = p.stdout.split('\n')[:-1]
     bad = 0
     stats_mismatch = []
